@@ -168,7 +168,7 @@ def step (st : St) (line : String) : St × String :=
       | none => (st, "skip")
     | [q, k] =>
       -- C10: a filter must never answer "definitely absent" for a key that has a record in some blob
-      if q == "cf" || q == "cfs" then
+      if q == "cf" || q == "cfs" || q == "gfc" then
         match hexNat k with
         | some k =>
           let stored := st.hist.any (fun b => b.2.any (fun r => r.key == k))
